@@ -209,8 +209,20 @@ class RFrame:
             def tz(arg=None, *a, **k):
                 return self.derive(index_tag=f"{name}({arg!r}) of {self.index_tag}")
             return _Callable(tz)
-        if name in ("mult", "sorted", "mutated", "index_tag", "uid", "root"):  # ghost state for contracts
-            return getattr(self, name)
+        if name in ("mult", "sorted", "mutated", "index_tag", "uid", "root", "emptied"):  # ghost state for contracts
+            return getattr(self, name, False)
+        if name == "reindex":
+            def reindex(index=None, *a, **k):
+                if a or k or not isinstance(index, RIndex):
+                    raise Unsupported("DataFrame.reindex other than by an index of the same universe", node)
+                # assumed pandas contract (unique labels): the result has the labels of `index`; a label this frame lacks gets NaN cells
+                tgt = index.frame
+                here = self.member()
+                cells = OrderedDict((c, cell_ite(here, v, NAN_CELL)) for c, v in self.cells.items())
+                return self.derive(mult=tgt.mult, cells=cells, note=f"reindex(frame#{tgt.uid})")
+            return _Callable(reindex)
+        if name in self.cells:
+            return self.sym_getitem(interp, name, node)
         raise Unsupported(f"DataFrame.{name} (row-wise model)", node)
 
     def empty(self, interp):
@@ -233,13 +245,17 @@ class RFrame:
             return self.derive(cells=OrderedDict((k, self.cells[k]) for k in key))
         if isinstance(key, RMask):
             return self.derive(mult=_ite(key.cond, self.mult, 0), note=f"filter[{key.note}]")
+        if isinstance(key, slice) and key.start is None and key.step is None and isinstance(key.stop, int) and key.stop == 0:
+            out = self.derive(mult=z3.IntVal(0), note="[:0]")
+            out.emptied = True
+            return out
         raise Unsupported(f"frame subscript by {type(key).__name__}", node)
 
     def sym_setitem(self, interp, key, value, node):
         use(interp, "pd.rowwise")
         if not isinstance(key, str):
             raise Unsupported("frame store with a non-string key", node)
-        self.cells[key] = as_cell(interp, value, node)
+        self.cells[key] = aligned_cell(interp, self, value, node)
         self.colflags[key] = set(getattr(value, "fills", ())) if isinstance(value, RSeries) else set()
         self.mutated = True
 
@@ -295,6 +311,17 @@ class _Columns(list):
 libmodels.METHODS[("_Columns", "tolist")] = lambda interp, recv, args, kwargs, node, frame: list(recv)
 
 
+def aligned_cell(interp, frame, value, node):
+    """cell stored into `frame` from `value`: a Series is aligned on the index, so a label that the series' own frame does not
+    contain (it was filtered out) receives NaN"""
+    cell = as_cell(interp, value, node)
+    if isinstance(value, RSeries) and value.frame is not frame:
+        m = value.frame.member()
+        if not (z3.is_true(z3.simplify(z3.Implies(frame.member(), m)))):
+            return cell_ite(m, cell, NAN_CELL)
+    return cell
+
+
 def as_cell(interp, value, node):
     if isinstance(value, RSeries):
         return value.cell
@@ -336,7 +363,7 @@ class _Loc:
             f = self.frame
             if col not in f.cells:
                 f.cells[col] = NAN_CELL
-            f.cells[col] = cell_ite(mask.cond, as_cell(interp, value, node), f.cells[col])
+            f.cells[col] = cell_ite(mask.cond, aligned_cell(interp, f, value, node), f.cells[col])
             f.colflags.pop(col, None)
             f.mutated = True
             return
@@ -382,6 +409,7 @@ class RMask:
 
 class RIndex:
     pandas_kind = "DatetimeIndex"
+    opaque_iteration = True
 
     def __init__(self, frame):
         self.frame = frame
@@ -392,7 +420,12 @@ class RIndex:
     def sym_getitem(self, interp, key, node):
         if isinstance(key, RMask):
             return RIndex(self.frame.derive(mult=_ite(key.cond, self.frame.mult, 0), note=f"filter[{key.note}]"))
-        raise Unsupported("index subscript other than a boolean mask", node)
+        if isinstance(key, slice) and key.step is None:
+            if key.start == 1 and key.stop is None:
+                return _RIndexPart(self.frame, "tail")      # index[1:]  -- every label but the first
+            if key.start is None and key.stop == -1:
+                return _RIndexPart(self.frame, "head")      # index[:-1] -- every label but the last
+        raise Unsupported("index subscript other than a boolean mask, [1:] or [:-1]", node)
 
     def sym_getattr(self, interp, name, node):
         u = self.frame.universe
@@ -457,6 +490,93 @@ def fill_only_missing(interp, series, total=False):
     return out
 
 
+def next_label_universe(interp, frame):
+    """ghost quantities of the arbitrary row about the NEXT label of the (sorted, unique) index: whether the row is the last
+    one, and the time to the next label in whole calendar days on the wall clock and as elapsed (absolute) days / seconds.
+    A daylight-saving change inside the period makes the elapsed time an hour short or long, so elapsed.days is the
+    wall-clock day count or one less."""
+    u = frame.universe
+    if "is_last" not in u:
+        run = interp.run
+        u["is_last"] = run.input("row.is_last", z3.BoolSort())
+        u["next_days_wall"] = run.input("row.next_days.wall_clock", z3.IntSort())
+        u["next_days_abs"] = run.input("row.next_days.elapsed", z3.IntSort())
+        u["next_seconds"] = run.input("row.next_seconds.elapsed", z3.RealSort())
+        run._add(z3.And(u["next_days_wall"] >= 0, u["next_seconds"] > 0,
+                        z3.Or(u["next_days_abs"] == u["next_days_wall"], u["next_days_abs"] == u["next_days_wall"] - 1),
+                        u["next_days_abs"] >= 0))
+    return u
+
+
+class _RIndexPart:
+    """index[1:] or index[:-1] of a frame's index"""
+
+    def __init__(self, frame, part):
+        self.frame = frame
+        self.part = part
+
+    def sym_binop(self, interp, op, l, r, node):
+        if isinstance(op, ast.Sub) and isinstance(l, _RIndexPart) and isinstance(r, _RIndexPart) and l.part == "tail" and r.part == "head" \
+                and l.frame.root == r.frame.root and l.frame.index_tag == r.frame.index_tag:
+            use(interp, "pd.index_diff")
+            clock = "wall" if "tz_localize(None)" in l.frame.index_tag else "abs"
+            return _RNextDelta(l.frame, clock)
+        raise Unsupported("index arithmetic other than index[1:] - index[:-1] of one index", node)
+
+
+class _RNextDelta:
+    """index[1:] - index[:-1]: for every row but the last, the time to the next label"""
+
+    def __init__(self, frame, clock, complete=False, unit=None):
+        self.frame, self.clock, self.complete, self.unit = frame, clock, complete, unit
+
+    def sym_getattr(self, interp, name, node):
+        if name == "days" and self.unit is None:
+            return _RNextDelta(self.frame, self.clock, self.complete, "days")
+        if name == "total_seconds" and self.unit is None:
+            return _Callable(lambda: _RNextDelta(self.frame, self.clock, self.complete, "seconds"))
+        if name == "append" and self.unit is None and not self.complete:
+            def append(other):
+                # .append(pd.TimedeltaIndex([pd.NaT])): one trailing NaT
+                return _RNextDelta(self.frame, self.clock, True, None)
+            return _Callable(append)
+        raise Unsupported(f"TimedeltaIndex.{name} (row-wise model)", node)
+
+    def sym_list(self, interp, node):
+        if self.unit is None:
+            raise Unsupported("list of a TimedeltaIndex", node)
+        return self
+
+    def sym_binop(self, interp, op, l, r, node):
+        # list(days) + [nan]: one trailing NaN aligns the values with the rows of the frame
+        if isinstance(op, ast.Add) and l is self and isinstance(r, list) and len(r) == 1 and not self.complete and self.unit is not None:
+            c = as_cell(interp, r[0], node)
+            if c.kind == NAN:
+                return _RNextDelta(self.frame, self.clock, True, self.unit)
+        if isinstance(op, ast.Div) and isinstance(r, _RNextDelta) and r.unit == "seconds" and r.complete and (is_num(l) or is_z3(l)):
+            u = next_label_universe(interp, r.frame)
+            q = interp.run.fresh_real("quot")
+            interp.run._add(q * u["next_seconds"] == to_real(l))
+            return RSeries(r.frame, Cell(z3.If(u["is_last"], NAN, NUM), q), "number / seconds to next label")
+        raise Unsupported("arithmetic on index differences (row-wise model)", node)
+
+    def cell(self, interp, node):
+        if not self.complete or self.unit is None:
+            raise Unsupported("index differences not aligned with the frame's rows (missing trailing NaN / unit)", node)
+        u = next_label_universe(interp, self.frame)
+        if self.unit == "days":
+            val = u["next_days_wall"] if self.clock == "wall" else u["next_days_abs"]
+        else:
+            if self.clock != "abs":
+                raise Unsupported("wall-clock seconds to the next label", node)
+            val = u["next_seconds"]
+        return Cell(z3.If(u["is_last"], NAN, NUM), val)
+
+
+assumed("pd.index_diff", "index[1:] - index[:-1] of a sorted unique DatetimeIndex is, row by row, the time to the next label (elapsed time for a "
+                         "timezone-aware index, wall-clock time after tz_localize(None)); .days truncates to whole days")
+
+
 class RSeries:
     pandas_kind = "Series"
 
@@ -495,6 +615,13 @@ class RSeries:
             return _Callable(fill)
         if name == "copy":
             return _Callable(lambda *a, **k: RSeries(self.frame, Cell(c.kind, c.val), self.name))
+        if name == "dropna":
+            def dropna(*a, **k):
+                f = self.frame.derive(mult=_ite(c.is_nan(), 0, self.frame.mult), note=f"dropna({self.name})")
+                return RSeries(f, c, self.name)
+            return _Callable(dropna)
+        if name == "empty":
+            return self.frame.empty(interp)
         if name == "clip":
             def clip(lower=None, upper=None, **k):
                 v = c.val
@@ -579,9 +706,16 @@ class RSeries:
             return RMask(ser.frame, res, f"{ser.name} cmp {other}")
         if isinstance(other, RSeries):
             raise Unsupported("comparison of two series (row-wise model)", node)
-        # comparisons with NaN / inf cells are False (NaN) -- only ordinary numbers compare
-        v = interp.compare(op, c.val, other, node)
-        return RMask(ser.frame, _and(c.is_num(), v), f"{ser.name} cmp")
+        # IEEE comparisons against an ordinary number: NaN compares False (True for !=), +inf is greater and -inf smaller than it
+        v = interp.compare(op, c.val if c.val is not None else 0, other, node)
+        res = _and(c.is_num(), v)
+        if isinstance(op, (ast.Gt, ast.GtE)):
+            res = _or(res, _eq(c.kind, PINF))
+        elif isinstance(op, (ast.Lt, ast.LtE)):
+            res = _or(res, _eq(c.kind, NINF))
+        elif isinstance(op, ast.NotEq):
+            res = _or(_not(c.is_num()), v)
+        return RMask(ser.frame, res, f"{ser.name} cmp")
 
     def sym_getitem(self, interp, key, node):
         if isinstance(key, RMask):
@@ -592,6 +726,18 @@ class RSeries:
     def sym_binop(self, interp, op, l, r, node):
         if isinstance(l, RSeries) and isinstance(r, RSeries):
             both = _and(l.cell.is_num(), r.cell.is_num())
+            if l.frame is not r.frame:  # index alignment: the label must be present on both sides
+                both = _and(both, l.frame.member(), r.frame.member())
+            if isinstance(op, ast.Div):
+                # float division of two columns never raises: x/0 is +-inf, 0/0 is NaN
+                lv = to_real(l.cell.val if l.cell.val is not None else 0)
+                rv = to_real(r.cell.val if r.cell.val is not None else 0)
+                nz = rv != 0
+                kind = z3.If(to_z3(both) if not isinstance(both, bool) else z3.BoolVal(both),
+                             z3.If(nz, NUM, z3.If(lv == 0, NAN, z3.If(lv > 0, PINF, NINF))), NAN)
+                q = interp.run.fresh_real("quot")
+                interp.run._add(z3.Implies(nz, q * rv == lv))
+                return RSeries(l.frame, Cell(kind, q), l.name)
             val = interp.binop(op, l.cell.val if l.cell.val is not None else 0, r.cell.val if r.cell.val is not None else 0, node)
             return RSeries(l.frame, Cell(_ite(both, NUM, NAN), val), l.name)
         if isinstance(l, RSeries) and (is_num(r) or is_z3(r)):
@@ -748,6 +894,10 @@ def pd_series(interp, args, kwargs, node, frame):
     index = kwargs.get("index")
     if isinstance(index, RIndex):
         use(interp, "pd.rowwise")
+        if isinstance(data, _RNextDelta):
+            if data.frame.root != index.frame.root:
+                raise Unsupported("Series of index differences on another frame's index", node)
+            return RSeries(index.frame, data.cell(interp, node), kwargs.get("name"))
         return RSeries(index.frame, as_cell(interp, data, node), kwargs.get("name"))
     return NotImplemented
 
@@ -866,6 +1016,18 @@ def install():
         nn = _not(cell.is_nan())
         interp.run._add(z3.Implies(z3.And(f.member(), to_z3(nn) if not isinstance(nn, bool) else z3.BoolVal(nn)), h))
         return h
+
+    @libmodels.api("next_days")
+    def _next_days(interp, args, kwargs, node, frame):
+        return next_label_universe(interp, args[0])["next_days_wall"]
+
+    @libmodels.api("next_seconds")
+    def _next_seconds(interp, args, kwargs, node, frame):
+        return next_label_universe(interp, args[0])["next_seconds"]
+
+    @libmodels.api("is_last_row")
+    def _is_last_row(interp, args, kwargs, node, frame):
+        return next_label_universe(interp, args[0])["is_last"]
 
     @libmodels.api("has_column")
     def _has_column(interp, args, kwargs, node, frame):
